@@ -541,7 +541,7 @@ def _strip_own(body, keys, status, hid, markers):
                         'kopf._cogs.configs.progress.SmartProgressStorage', 'kopf._cogs.configs.progress.MultiProgressStorage',
                         'kopf._cogs.configs.diffbase.AnnotationsDiffBaseStorage', 'kopf._cogs.configs.diffbase.StatusDiffBaseStorage',
                         'kopf._cogs.configs.diffbase.MultiDiffBaseStorage', 'kopf._cogs.configs.conventions.CollisionEvadingConvention.mark_key'],
-         props=['C16', 'C02'],
+         props=['C16', 'C02', 'C03'],
          clauses=['round_trip', 'written_names_valid', 'store_touches_only_own', 'purge_complete', 'purge_touches_only_own', 'purge_of_nothing_is_noop',
                   'store_then_purge_in_one_patch', 'isolation_other_ids', 'isolation_other_operator', 'either_version_read',
                   'touch', 'diffbase_round_trip', 'replicaset_marking'],
